@@ -5,7 +5,7 @@ D=$1; P=$2; T=${3:-quick}
 if [ -f "$D/patch.diff" ] && [ ! -d "$D/boltons" ]; then
   W=$(mktemp -d /tmp/seedwt.XXXXXX); rmdir $W
   git -C /repo worktree add -q --detach $W HEAD || exit 2
-  git -C $W apply "$D/patch.diff" || { echo "PATCH DOES NOT APPLY"; git -C /repo worktree remove --force $W; exit 3; }
+  git -C $W apply "$D/patch.diff" 2>/dev/null || git -C $W apply --3way "$D/patch.diff" 2>/dev/null || { echo "PATCH DOES NOT APPLY"; git -C /repo worktree remove --force $W; exit 3; }
   VERIF_REPO=$W /verif/check $P --tier $T; RC=$?
   git -C /repo worktree remove --force $W
   exit $RC
